@@ -79,13 +79,13 @@ type Proof struct {
 }
 
 type Vote struct { // ViewChangeMessageContent
-	Type   MT
-	Inst   uint64
-	H, V   uint64
-	Proof  *Proof // nil when absent / empty
-	HdrRaw []byte
-	Sender Sig
-	Raw    []byte
+	Type    MT
+	Inst    uint64
+	H, V    uint64
+	Proof   *Proof // nil when absent / empty
+	HdrRaw  []byte
+	Sender  Sig
+	Raw     []byte
 	keepRaw bool
 }
 
